@@ -300,6 +300,19 @@ def run(eng, rep) -> None:
         assigns = t.assigns()
         for lp in t.loops():
             b = lp.base
+            gfo = global_fields_order(eng, jb, b) if isinstance(b, J.Call) else None
+            if gfo is not None and name_is_struct(eng, jb, t, assigns, gfo[0]) and RELEVANT_J.search(lp.body_text) and not lp.filters:
+                # the iterable is produced by a Python helper registered as a template global
+                n_j += 1
+                what = "Encode" if "Encode" in lp.body_text else "Decode"
+                site = "for %s in %s  [%s loop]" % (lp.target, lp.iter_src, what)
+                if gfo[1] == "sorted":
+                    rep.ok("R15.1", t.relpath, "struct block", site, "ascending field_id (ordered by the template global %s)" % b.node.name)
+                elif gfo[1] == "declared":
+                    rep.violation("R15.1", t.relpath, "struct block", site, "generated C++ %ss fields in declaration order (template global %s returns them unsorted), not ascending field_id" % (what.lower(), b.node.name))
+                else:
+                    rep.undecided("R15.1", t.relpath, "struct block", site, "order produced by the template global %s is not decided (%s)" % (b.node.name, gfo[1]))
+                continue
             if not (isinstance(b, J.Getattr) and b.attr == "fields" and isinstance(b.node, J.Name)):
                 continue
             if not name_is_struct(eng, jb, t, assigns, b.node.name):
@@ -350,6 +363,35 @@ def run(eng, rep) -> None:
         bad = [l for l in re.findall(r"[^\n]*\bfields\b[^\n]*", src) if re.search(r"std::(sort|reverse|stable_sort)|rbegin|rend", l)]
         rep.check(not bad and len(loops) >= 2, "R15.2", dyn, "-", "range-for over fields x%d" % len(loops), "reflected field vectors are iterated front to back, never sorted/reversed",
                   "the run-time codec reorders or reverses the reflected field list: %s" % (bad[:1] or "loops not found"))
+
+
+def global_fields_order(eng, jb: JinjaBinding, call) -> Optional[Tuple[str, str]]:
+    """`{% for f in G(struct) %}` with G a Python function registered as a template global that returns the fields of its
+    struct argument: -> (name of the struct argument, 'sorted' | 'declared' | 'unknown: ...'); None when G is not such a function"""
+    if not (isinstance(call, J.Call) and isinstance(call.node, J.Name)):
+        return None
+    g = jb.global_func(call.node.name)
+    if g is None:
+        return None
+    rets = [n.value for n in walk_local(g.node) if isinstance(n, ast.Return) and n.value is not None]
+    if not rets:
+        return None
+    gdefs = Defs(g.node)
+    orders, arg = set(), None
+    for r in rets:
+        o, base = order_of(eng, g, r, gdefs)
+        if not (isinstance(base, ast.Attribute) and base.attr == "fields" and isinstance(base.value, ast.Name)):
+            return None
+        ps = [p.arg for p in g.params]
+        if base.value.id not in ps:
+            return None
+        i = ps.index(base.value.id)
+        if i < len(call.args) and isinstance(call.args[i], J.Name):
+            arg = call.args[i].name
+        orders.add(o if o in ("sorted", "declared") else "unknown: " + o)
+    if arg is None:
+        return None
+    return arg, (orders.pop() if len(orders) == 1 else "unknown: returns differ")
 
 
 def name_is_struct(eng, jb: JinjaBinding, t: JTemplate, assigns, name: str) -> bool:
